@@ -6,7 +6,7 @@ THEOREMS = {
         "theorems": ["Abnf.C01.reported_end_is_derivable", "Abnf.C01.derivable_end_is_reported", "Abnf.C01.ends_iff_derivable",
                      "Abnf.C01.spec_alternation", "Abnf.C01.spec_concatenation", "Abnf.C01.spec_repetition", "Abnf.C01.spec_literal",
                      "Abnf.C01.spec_range", "Abnf.C01.spec_empty_string", "Abnf.C01.spec_prose", "Abnf.C01.fold_ascii_only",
-                     "Abnf.lparse_sound", "Abnf.lparse_complete"],
+                     "Abnf.lparse_sound", "Abnf.lparse_complete", "Abnf.C01.matching_conforms", "Abnf.lparse_total"],
     },
     "C02": {
         "modules": ["Abnf.Theorems.C02"],
@@ -42,9 +42,10 @@ THEOREMS = {
                      "Abnf.C11.flag_last_write_wins", "Abnf.C11.exclusion"],
     },
     "C12": {
-        "modules": ["Abnf.Theorems.C12"],
+        "modules": ["Abnf.Theorems.C12", "Abnf.Obligations.Meta"],
         "theorems": ["Abnf.C12.closed_grammar_only_parse_error", "Abnf.C12.undefined_rule_raises", "Abnf.C12.result_independent_of_fuel",
-                     "Abnf.C12.at_end_of_input", "Abnf.closed_noGerr", "Abnf.lparse_mono"],
+                     "Abnf.C12.at_end_of_input", "Abnf.C12.terminates", "Abnf.C12.terminates_expr", "Abnf.closed_noGerr", "Abnf.lparse_mono",
+                     "Abnf.lparse_total", "Abnf.repLoop_noOof", "Abnf.nullable_sound", "Abnf.Obl.Meta.meta_wf"],
     },
     "C13": {
         "modules": ["Abnf.Theorems.C13"],
@@ -69,20 +70,23 @@ THEOREMS = {
         "theorems": ["Abnf.C14.unfoldE_frame", "Abnf.C14.flag_write_frame", "Abnf.C14.import_copy_fresh"],
     },
     "C05": {
-        "modules": ["Abnf.Theorems.C01", "Abnf.Theorems.C12"],
-        "theorems": ["Abnf.C01.ends_iff_derivable", "Abnf.closed_noGerr"],
+        "modules": ["Abnf.Theorems.C05"],
+        "theorems": ["Abnf.C05.reader_total_and_exact", "Abnf.C05.reference_total_and_exact", "Abnf.Obl.Meta.meta_wf",
+                     "Abnf.Obl.Meta.meta_plain", "Abnf.C05.rfc_wf", "Abnf.C05.rfc_plain", "Abnf.wfCheck_sound"],
     },
     "C09": {
-        "modules": ["Abnf.Theorems.C01", "Abnf.Theorems.C12", "Abnf.Theorems.C11"],
-        "theorems": ["Abnf.C01.ends_iff_derivable", "Abnf.closed_noGerr", "Abnf.C11.first_match"],
+        "modules": ["Abnf.Theorems.C09", "Abnf.Theorems.C11"],
+        "theorems": ["Abnf.C09.bundled_wellformed", "Abnf.C09.bundled_closed", "Abnf.C09.bundled_rule_total_and_sound",
+                     "Abnf.Obl.Bundled.bundled_wf", "Abnf.Obl.Bundled.bundled_closed", "Abnf.Obl.Bundled.bundled_no_prose",
+                     "Abnf.wfFast_sound", "Abnf.closedFast_sound", "Abnf.C11.first_match"],
     },
     "C15": {
-        "modules": ["Abnf.Theorems.C01"],
-        "theorems": ["Abnf.C01.ends_iff_derivable"],
+        "modules": ["Abnf.Theorems.C05", "Abnf.Theorems.C09"],
+        "theorems": ["Abnf.C05.reader_total_and_exact", "Abnf.C09.bundled_rule_total_and_sound"],
     },
     "C19": {
-        "modules": ["Abnf.Theorems.C01"],
-        "theorems": ["Abnf.C01.ends_iff_derivable"],
+        "modules": ["Abnf.Theorems.C09", "Abnf.Theorems.C01"],
+        "theorems": ["Abnf.C09.bundled_rule_total_and_sound", "Abnf.C01.ends_iff_derivable"],
     },
     "C16": {
         "modules": ["Abnf.Theorems.C16"],
